@@ -172,6 +172,24 @@ def run(chk):
         if not i.endswith(" " + w) or ("x" + c[1][0].hex()) not in i.split()[1]:
             chk.violate({"kind": "property", "case": lib.show_case((c[0], c[1][:2])), "impl": i, "expected": w,
                          "explanation": "an entry parsed from a Checksums field is not verified under that field's algorithm"})
+    # entries handed out for one paragraph stay that paragraph's entries when later paragraphs are decoded into the same
+    # variable (a Decoder.Decode loop over an index that keeps the checksum lists it has seen)
+    rc = []
+    for _ in range(chk.n(150, 3000)):
+        paras = []
+        for _ in range(rng.randrange(2, 5)):
+            t = b"Source: s%d\nBinary: %s\n" % (len(paras), b", ".join(rng.choice([b"a", b"libb1", b"c-dev"]) for _ in range(rng.randrange(1, 4))))
+            for alg, key in (("sha256", b"Checksums-Sha256"), ("sha512", b"Checksums-Sha512")):
+                if rng.random() < 0.75:
+                    t += key + b":" + b"".join(b"\n " + digest(alg, bytes([rng.randrange(256)])).hex().encode() + b" %d f%d" % (rng.randrange(999), k) for k in range(rng.randrange(1, 4))) + b"\n"
+            paras.append(t)
+        rc.append(("cretained", [b"\n".join(paras)]))
+    ri = chk.run_impl(rc)
+    chk.record("entries-kept-across-paragraphs", rc, ri, lambda c, r: r.startswith("kept"))
+    for c, r in zip(rc, ri):
+        if r != "kept %d" % (c[1][0].count(b"Source: ")):
+            chk.violate({"kind": "property", "case": lib.show_case(c), "impl": r[:900],
+                         "explanation": "checksum entries (or list values) read from an earlier paragraph changed when a later paragraph was decoded into the same variable: their verifiers no longer answer for the recorded hashes"})
     fcases = []
     for data in datas[:40]:
         for alg in ALGS:
